@@ -242,7 +242,7 @@ def main(argv):
     for o in refuted:
         known = [k for k in kf if k.get('obligation') == o['name']]
         if known:
-            lines.append('KNOWN-FINDING: property=%s %s' % (a.prop, known[0]['text'][len('finding:'):].strip()))
+            lines.append('KNOWN-FINDING: property=%s %s' % (a.prop, re.sub(r'^property=\S+\s*', '', known[0]['text'][len('finding:'):].strip())))
             o['known_finding'] = True
             continue
         violations += 1
